@@ -79,6 +79,15 @@ def isNavigation (method mode dest : String) (acceptsHtml : Bool) : Bool :=
 
 def hasSecFetchMetadata (mode dest : String) : Bool := mode != "" && dest != ""
 
+def trimSp (s : List Char) : List Char := ((s.dropWhile Char.isWhitespace).reverse.dropWhile Char.isWhitespace).reverse
+
+/-- internal/http/request.go:Accepts for ONE Accept header line: some comma-separated element, lower-cased, trimmed and cut at its first `;`, equals the wanted media type.
+    (A wildcard such as `*/*` or `text/*` is NOT an acceptance of text/html: only browsers' explicit `text/html` marks a navigation.) -/
+def acceptsMedia (accept : String) (want : String) : Bool :=
+  (accept.splitOn ",").any fun v =>
+    let v := String.ofList (trimSp v.toLower.toList)
+    ((v.splitOn ";").headD "") == want
+
 /-- true = the guard answers 401 itself -/
 def nonNavBlocked (method mode dest : String) (acceptsHtml : Bool) : Bool :=
   hasSecFetchMetadata mode dest && !isNavigation method mode dest acceptsHtml
